@@ -21,7 +21,12 @@ ASSUMPTIONS = ["finite scores of moderate magnitude", "a > 0"]
 
 def _ties():
     from harness.translate import scores_tr
-    return [{"name": "scores.swap", "translate": scores_tr.translate_swap, "gen_file": "Gen_swap.v", "tie_file": "Tie_swap.v"}]
+    return [{"name": "scores.swap", "translate": scores_tr.translate_swap, "gen_file": "Gen_swap.v", "tie_file": "Tie_swap.v"},
+            # the functions whose results the property relates (their own properties C01/C02/C06/C07 carry the theorems)
+            {"name": "scores.cm", "translate": scores_tr.translate_cm, "gen_file": "Gen_cm.v", "tie_file": "Tie_cm.v"},
+            {"name": "scores.threshold-setting", "translate": scores_tr.translate_thresholds, "gen_file": "Gen_thr.v", "tie_file": "Tie_thr.v"},
+            {"name": "scores.eer", "translate": scores_tr.translate_eer, "gen_file": "Gen_eer.v", "tie_file": "Tie_eer.v"},
+            {"name": "scores.auc", "translate": scores_tr.translate_auc, "gen_file": "Gen_auc.v", "tie_file": "Tie_auc.v"}]
 
 
 TIES = _ties()
